@@ -11,6 +11,7 @@ def joinWords (l : List Word) : String := joinNats (l.map BitVec.toNat)
 def parseG : String → Option G
   | "X" => some .x | "Y" => some .y | "Z" => some .z | "S" => some .s
   | "CX" => some .cx | "CCX" => some .ccx | "Swap" => some .swap
+  | "KronXCX" => some .kxcx | "KronCXX" => some .kcxx
   | _ => none
 
 /-- split a word list at every `;` -/
